@@ -86,29 +86,41 @@ def classify_call(params: list[tuple[str, str | None]], actuals: list[list[Any]]
                   rt: str | None, crash: dict[str, Any] | None = None) -> str:
     """Mechanism key of a call-binding disagreement. params = [(kind letter P/K/V/N/W, name)], actuals in generator form."""
     if crash:
-        return f"call-binding:internal-error:{crash.get('exc')}@{crash.get('file')}:{crash.get('func')}"
+        return (f"call-binding:internal-error:{crash.get('exc')}@{crash.get('file')}:{crash.get('func')}"
+                f":cpython-{'rejects' if rt is not None else 'accepts'}")
     kinds = "+".join(sorted({KIND_WORD.get(a[0], "?") for a in actuals})) or "none"
     if rt is not None:
         for rx, name in RT_TEMPLATES:
             m = rx.search(rt)
             if not m:
                 continue
-            if not m.groups() or m.lastindex is None or name in ("too-many-positional",):
+            if m.lastindex is None or name == "too-many-positional":
                 return f"call-binding:false-accept:{name}:actuals={kinds}"
             arg = m.group(m.lastindex)
-            pk = next((k for k, n in params if n == arg), "-")
-            via = []
+            pidx = next((i for i, (_k, n) in enumerate(params) if n == arg), None)
+            pk = params[pidx][0] if pidx is not None else "-"
+            via: list[str] = []
             for a in actuals:
                 if a[0] == "kw" and a[1] == arg:
                     via.append("keyword")
                 elif a[0] == "td" and a[1] is not None and arg in a[1]:
                     via.append("**TypedDict")
-            if name == "multiple-values-for-argument":
-                via += sorted({KIND_WORD[a[0]] for a in actuals if a[0] in ("pos", "star") and (a[0] == "pos" or a[1])})
-            c: dict[str, int] = {}
-            for v in via:
-                c[v] = c.get(v, 0) + 1
-            vias = "+".join((f"{n}x" if n > 1 else "") + v for v, n in sorted(c.items()))
+            if name == "multiple-values-for-argument" and pidx is not None:
+                # which positional actual fills that parameter
+                flat: list[str] = []
+                for a in actuals:
+                    if a[0] == "pos":
+                        flat.append("positional")
+                    elif a[0] == "star":
+                        flat += ["*tuple"] * int(a[1] or 0)
+                if pidx < len(flat):
+                    via.append(flat[pidx])
+            uniq = sorted(set(via))
+            vias = "+".join(uniq) if len(uniq) > 1 or len(via) < 2 else f"{uniq[0]}-twice"
+            if name == "multiple-values-for-keyword-argument":
+                # where mypy's mapping puts a name that is not a named formal
+                lands = {"-": "**kwargs", "P": "**kwargs", "W": "**kwargs", "V": "*args"}.get(pk, "formal-" + pk)
+                return f"call-binding:false-accept:{name}:lands-in={lands}:via={vias or '?'}"
             return f"call-binding:false-accept:{name}:param-kind={pk}:via={vias or '?'}"
         return f"call-binding:false-accept:other-TypeError:actuals={kinds}"
     tmpl = "|".join(sorted({re.sub(r'"[^"]*"', '"_"', re.sub(r' (for|in call to) "[^"]*"', "", m[1])) for m in mypy_msgs
@@ -460,9 +472,11 @@ def gen_reach(ctx: common.Ctx, n_combo: int) -> tuple[list[str], dict[str, tuple
     return conds, info
 
 
-def gen_reach_tasks(ctx: common.Ctx, conds: list[str], build_cfgs: list[tuple[tuple[int, int], str, bool]]) -> Iterator[dict[str, Any]]:
-    for v in G.VERSIONS:
-        yield {"fn": T + "reach_direct", "args": {"conds": conds, "versions": [list(v)], "platforms": G.PLATFORMS},
+def gen_reach_tasks(ctx: common.Ctx, conds: list[str], build_cfgs: list[tuple[tuple[int, int], str, bool]],
+                    nplat: int = 5) -> Iterator[dict[str, Any]]:
+    for i, v in enumerate(G.VERSIONS):
+        plats = G.PLATFORMS if nplat >= 5 else [G.PLATFORMS[(i + 2 * j) % 5] for j in range(nplat)]
+        yield {"fn": T + "reach_direct", "args": {"conds": conds, "versions": [list(v)], "platforms": plats},
                "_kind": "reach", "_layer": "direct"}
     half = (len(conds) + 1) // 2
     for (v, p, native) in build_cfgs:
@@ -628,6 +642,11 @@ def op_signature(src: str) -> str:
     return type(n).__name__
 
 
+def size_exc(exc: Any) -> str:
+    """OverflowError and MemoryError are the two faces of one event (an operand too large for the operation)."""
+    return "Overflow|MemoryError" if exc in ("OverflowError", "MemoryError") else str(exc)
+
+
 def fold_verdict(static: list[str] | None, rt: Any) -> str | None:
     """None = agree / not folded. Otherwise the kind of disagreement."""
     if static is None:
@@ -674,7 +693,7 @@ def handle_fold(sub: Sub, t: dict[str, Any], res: dict[str, Any], pending: list[
         if c.get("crash"):
             sub.ev("fold")
             cr = c["crash"]
-            sub.viol("fold", f"fold:mypy:internal-error:{cr.get('exc')}@{cr.get('file')}:{cr.get('func')}"
+            sub.viol("fold", f"fold:internal-error:{size_exc(cr.get('exc'))}@{cr.get('func')}"
                      + (":direct-call-only" if cr.get("confirmed_by_real_build") is False else ""),
                      f"mypy fails internally while folding `{c['expr']}` (CPython: {c['rt']})",
                      {"expr": c["expr"], "decls": t["args"]["decls"], "cpython_eval": c["rt"], "internal_error": cr,
@@ -699,7 +718,7 @@ def handle_fold(sub: Sub, t: dict[str, Any], res: dict[str, Any], pending: list[
         for cr in m.get("crashed", []):
             sub.ev("fold")
             ok, v = G.fold_guard(cr["expr"], fold_env())
-            sub.viol("fold", f"fold:mypyc:internal-error:{cr.get('exc')}@{cr.get('file')}:{cr.get('func')}"
+            sub.viol("fold", f"fold:internal-error:{size_exc(cr.get('exc'))}@{cr.get('func')}"
                      + ("" if cr.get("confirmed_by_real_ir_build") else ":direct-call-only"),
                      f"mypyc fails internally while folding `{cr['expr']}` "
                      f"(CPython: {'raises ' + type(v).__name__ if isinstance(v, BaseException) else 'evaluates it'})",
@@ -710,7 +729,7 @@ def handle_fold(sub: Sub, t: dict[str, Any], res: dict[str, Any], pending: list[
             f = m["fail"]
             if f.get("kind") == "crash":
                 sub.ev("fold")
-                sub.viol("fold", f"fold:mypyc:internal-error:{f.get('func')}",
+                sub.viol("fold", f"fold:internal-error:{size_exc(f.get('exc'))}@{f.get('func')}:whole-ir-build",
                          f"mypyc IR build fails internally on a module of constant expressions: {f.get('msg')}",
                          {"exprs": t["args"]["exprs"], "decls": t["args"]["decls"], "failure": f,
                           "replay_task": {"fn": T + "fold_batch", "args": t["args"], "_kind": "fold", "_tag": "replay"}})
@@ -795,11 +814,10 @@ def run(ctx: common.Ctx) -> None:
 
     only = set(filter(None, os.environ.get("VERIF_C12_ONLY", "").split(","))) or set(SUBS)
     if quick:
-        call_exh, n_call_rand, n_corpus = [(3, 2)], sc(45000), sc(250)
-        n5_step, n6_build, n6_direct = 1, sc(6000), sc(300000)
+        call_exh, n_call_rand, n_corpus = [(3, 2)], sc(36000), sc(200)
+        n5_step, n6_build, n6_direct = 1, sc(3000), sc(300000)
         n_combo = sc(2500)
-        build_cfgs = [((3, 10 + i), G.PLATFORMS[(i + j) % 5], native) for i in range(6) for j in (0, 2) for native in (False, True)
-                      if not (native and j == 2)]
+        build_cfgs = [((3, 10 + i), G.PLATFORMS[i % 5], native) for i in range(6) for native in (False, True)]
         n_fold_rand, mypyc_every = sc(9000), 3
     else:
         call_exh, n_call_rand, n_corpus = [(4, 2), (3, 3)], sc(450000), sc(2500)
@@ -849,7 +867,7 @@ def run(ctx: common.Ctx) -> None:
     def tasks() -> Iterator[dict[str, Any]]:
         gens = []
         if "reach" in only:
-            gens.append(gen_reach_tasks(ctx, conds, build_cfgs))
+            gens.append(gen_reach_tasks(ctx, conds, build_cfgs, nplat=2 if quick else 5))
         if "fold" in only:
             gens.append(gen_fold_tasks(d1, rnd, mypyc_every))
         if "mro" in only:
@@ -870,6 +888,8 @@ def run(ctx: common.Ctx) -> None:
         env = common.base_env(VERIF_POOL_ROOT=wd)
         with Pool(env=env, recycle_after=150) as pool:
             for t, r in pool.imap(tasks(), timeout=900):
+                if os.environ.get("VERIF_C12_DEBUG") and r.get("wall", 0) > float(os.environ["VERIF_C12_DEBUG"]):
+                    print(f"slow task {t['fn']} {t.get('_tag') or t.get('_layer') or ''} wall={r.get('wall'):.1f}s", flush=True)
                 dispatch(sub, t, r, combo_info, pending_fold)
             settle_fold(sub, pool, pending_fold)
     settle_reach(sub)
@@ -877,7 +897,7 @@ def run(ctx: common.Ctx) -> None:
     ex = {"call": {f"<= {a} params x <= {b} actuals": True for a, b in call_exh} if scale >= 1 else {},
           "mro": {"<= 5 classes (full build)": n5_step == 1, "6 classes (direct calculate_mro)": n6_direct is None},
           "fold": {"depth 1 over the boundary leaves (size-guarded)": scale >= 1},
-          "reach": {"all generated single comparisons x 16 versions x 5 platforms (direct)": scale >= 1}}
+          "reach": {"all generated single comparisons x 16 versions x 5 platforms (direct)": scale >= 1 and not quick}}
     ctx.extra["exhaustive_subspaces"] = ex
     ctx.exhaustive = False
     summary = {}
